@@ -317,6 +317,11 @@ def run_cell(mod_name: str, cell: dict) -> dict:
                 })
         finally:
             stats.merge(ctx.stats)
+        # a cell whose feasibility queries keep timing out (20 s each) is not going to be decided within its time limit:
+        # stop it early and report it as inconclusive (what was found so far is kept)
+        if out['unknown_feasibility'] > cell.get('max_unknown', 12):
+            out['timeout_why'] = f"solver budget exhausted: {out['unknown_feasibility']} feasibility queries undecided"
+            raise CellTimeout()
 
     symx.set_pool(cell.get('gens', 56))
     signal.signal(signal.SIGALRM, _alarm)
